@@ -170,12 +170,12 @@ EXTRA = {
     "C05": "Further phase 'stoprace': callers held between the engine's stopped check and its enqueue by a Context whose Done() parks, released before/during/after Stop. Done channels may be shared by several batches (one value per accepted batch).",
     "C06": "Further phase 'badbatch' (rejection-heavy partitioned histories, no injected faults); 'error means absent' is also judged with the filesystem store as MetaStore unless a cleanup call itself was made to fail.",
     "C08": "Further phase 'stoprace' (see C05). When wedged: abandoned channels on producer batches, deep-backlog and quiet-wedge shapes, Flush callers queued behind the wedge (must return, and with an error after a deadline error). Abandoned empty/unmarshalable batches too.",
-    "C10": "Generator modes: mixed limits, exactly one binding limit, and a trickle of small/empty requests inside every time window; answers are time-stamped by live receivers and bounded from each batch's own acceptance. Also a hum of empty requests faster than any polling period, and skewed multi-partition batches for the row-group byte limit; the obligation is re-derived from the still-unanswered batches when the buffer model may be stale.",
+    "C10": "Generator modes: mixed limits, exactly one binding limit, and a trickle of small/empty requests inside every time window; answers are time-stamped by live receivers and bounded from each batch's own acceptance. Also a hum of empty requests faster than any polling period, and skewed multi-partition batches for the row-group byte limit; the obligation is re-derived from the still-unanswered batches when the buffer model may be stale. Further mode 'fireforget': only the time limit can fire, most batches carry no done channel, wholly rejected batches (unserializable row) arrive between and after them, then the engine is idle: every accepted row must be visible to a match-all query on the same engine within the same time bound.",
     "C13": "Single-flight is checked with three further Merge calls made one after the other while the first is gated. A third of the cases run the Merge against a MetaStore that is the in-memory DataStore itself; every committed output must be a whole bloom file. A merge that did not commit must also leave the block metadata the MetaStore serves unchanged.",
     "C16": "Sequences include redundant Close/Abort/Write calls on a writer whose Close already succeeded. Also a Close made to fail before publishing (its .tmp removed) whose owner aborts and tombstones only later. Payloads up to 300 KB written as a tiny first chunk plus large chunks. A third of the cases root the store at a path whose components contain .dat/.tmp.",
     "C19": "Further phase 'transplant': a block's row data replaced by a complete valid compressed stream of identical sizes written to another store. Hostile metadata includes cooperating pairs (a negative section size plus an extent beyond the file). Further phase 'metahostile': hostile filter section extents in MetaStore-held metadata for one of several healthy files.",
-    "C20": "Scripts include 2-4 concurrent Close calls and a settle stall before a deliberate Close when faults are planned. Also a slow walk through buffered rows with a concurrent Close (repeated), and a world with a malformed block whose scan fails after its rows were matched. Store errors may wrap a context error of their own; 60-90 file worlds back the pipeline up to the candidate-pulling stage before Close/cancel.",
-    "C21": "Handle and iterator accounting is also snapshotted at the return of each individual Close call (sequential, asynchronous, or one of several concurrent ones). Further phase 'contended': 2-6 queries on one engine with MaxQueryConcurrency 1-3, slow handle Close, failing reads, then the full accounting and the budget recheck. Read handles whose Close reports an error.",
+    "C20": "Scripts include 2-4 concurrent Close calls and a settle stall before a deliberate Close when faults are planned. Also a slow walk through buffered rows with a concurrent Close (repeated), and a world with a malformed block whose scan fails after its rows were matched. Store errors may wrap a context error of their own; 60-90 file worlds back the pipeline up to the candidate-pulling stage before Close/cancel. Also blocks of exactly five 64-row batches on a budget of 1-3: after a stall every worker is parked on the full row buffer, the consumer reads the first row of one more batch and terminates at once (repeated).",
+    "C21": "Handle and iterator accounting is also snapshotted at the return of each individual Close call (sequential, asynchronous, or one of several concurrent ones). Further phase 'contended': 2-6 queries on one engine with MaxQueryConcurrency 1-3, slow handle Close, failing reads, then the full accounting and the budget recheck. Read handles whose Close reports an error. The shared scripts include the parked-worker script of C20 (a worker un-parked by the consumer while the query is being terminated); the budget recheck then requires every slot back.",
     "C24": "Further phase 'transient': the same expectations with a one-shot OpenFile/Read/Seek failure inside about half of the queries. External-writer files may carry blocks without a filter section next to blocks with one.",
     "C25": "Further phase 'shared': one expression value (constructor-built, JSON-decoded, append-built with spare capacity) used for several builder chains and constructor calls. Constructor calls may receive one caller-owned operand slice that is re-filled for the next call.",
     "C26": "Further phase 'volume': 250 000 - 1 000 000 (thorough 3 000 000) distinct entries per block at rates down to 1e-12. The text is stored under 1-8 fields; a merge may be run by a second engine with a different rate. Merges may contain a block that is copied verbatim (its recorded rate must stay the writing engine's).",
